@@ -1262,6 +1262,8 @@ class Real:
                 rf = lambda x: _Label("none" if x is None else "w%d" % (self.vname(x) % 2))  # noqa: E731
             elif toks[2] == "num":
                 rf = lambda x: code(x) * 5  # noqa: E731
+            elif toks[2] == "pad":
+                rf = lambda x: "none" if x is None else ("v%d, ", "v%d ", "v%d\n\n")[self.vname(x) % 3] % self.vname(x)  # noqa: E731
             else:
                 rf = lambda x: "none" if x is None else "v%d" % self.vname(x)  # noqa: E731
             sort = None
